@@ -209,7 +209,7 @@ def check_exec(repo_src, rnd, inputs=None, random_only=False):
             except Exception: continue
             if not oracle.veq(got, v):
                 out.append(_disc('exec', ['C03', 'C04', 'C06', 'C09'], c, oracle.vdbg(v), r['val'], 'the value differs from the documented meaning')); continue
-            if not strict_eq(got, v) and all(ch in '0123456789.' for ch in s.strip()):
+            if not strict_eq(got, v) and re.fullmatch(r'[A-Za-z_0-9.;=\s]*', s) and not re.search(r'[-+*/%<>!&|^]=|==', s):
                 out.append(_disc('exec', ['C09'], c, oracle.vdbg(v), r['val'], 'digits / scale of an exact decimal result are not preserved')); continue
         else:
             if r.get('ok'):
@@ -253,7 +253,7 @@ def check_conv(repo_src, rnd):
             try: got = parse_vdbg(r['val'])
             except Exception: continue
             if got[0] != 'num' or got[1] != n:
-                out.append(_disc('conv', ['C17'], c, 'Number(%d)' % n, r['val'], 'Value::from(%s) does not denote the integer' % c['s'])); continue
+                out.append(_disc('conv', ['C17', 'C03'], c, 'Number(%d)' % n, r['val'], 'Value::from(%s) does not denote the integer' % c['s'])); continue
             exp = 'Some(%d)' % n if -(2**63) <= n < 2**63 else 'None'
             if r.get('int') != exp:
                 out.append(_disc('conv', ['C17', 'C04'], c, 'integer() = %s' % exp, r.get('int'), 'integer() of Value::from(%s)' % c['s']))
@@ -269,6 +269,13 @@ def check_scripts(repo_src, rnd):
         case = dict(m='macroctx', s=s)
         if r is None or r.get('panic'): out.append(_disc('script', ['C06', 'C08'], case, exp, 'panic/abort', 'evaluation in a create_context! context did not return'))
         elif r.get('val') != exp: out.append(_disc('script', ['C06', 'C08'], case, exp, r.get('val') or ('Err(%s)' % r.get('err')), 'a context built by create_context! does not hold the bindings as written'))
+    mc2 = [('f()', 'String("second")'), ('v', 'Number(2)'), ('g', 'Number(7)'), ('h()', 'String("hfn")'), ('h', 'String("hfn")'), ('k(1, 2, 3)', 'Number(3)'), ('z', 'String("last")'), ('[f(), v, g]', 'List([String("second"), Number(2), Number(7)])')]
+    res = run_cases([dict(m='macroctx2', s=s) for s, _ in mc2], repo_src)
+    n += len(mc2)
+    for (s, exp), r in zip(mc2, res):
+        case = dict(m='macroctx2', s=s)
+        if r is None or r.get('panic'): out.append(_disc('script', ['C06', 'C08', 'C01'], case, exp, 'panic/abort', 'evaluation in a create_context! context did not return'))
+        elif r.get('val') != exp: out.append(_disc('script', ['C06', 'C08'], case, exp, r.get('val') or ('Err(%s)' % r.get('err')), 'create_context! with a name bound twice: the later entry must win (bindings are made in the order written)'))
     for sc in corpus.SCRIPTS + corpus.adjacency_scripts():
         steps = []
         for (m, s, extra) in sc['steps']:
@@ -307,7 +314,7 @@ def check_scripts(repo_src, rnd):
     return out, n
 
 CATS = {'parse': check_parse, 'exec': check_exec, 'conv': check_conv, 'script': check_scripts}
-PROP_CATS = {'C01': ['parse', 'exec'], 'C02': ['parse', 'script'], 'C03': ['exec', 'script'], 'C04': ['exec', 'conv', 'script'], 'C05': ['parse', 'script'], 'C06': ['exec', 'script'], 'C07': ['exec', 'script'], 'C08': ['script', 'exec'],
+PROP_CATS = {'C01': ['parse', 'exec'], 'C02': ['parse', 'script'], 'C03': ['exec', 'script', 'conv'], 'C04': ['exec', 'conv', 'script'], 'C05': ['parse', 'script'], 'C06': ['exec', 'script'], 'C07': ['exec', 'script'], 'C08': ['script', 'exec'],
              'C09': ['exec', 'parse', 'script'], 'C10': ['parse', 'script'], 'C12': ['parse', 'script'], 'C17': ['conv'], 'C18': ['parse', 'script']}
 _cache = {}
 def run_category(cat, repo_src, seed=0, random_only=False):
